@@ -116,7 +116,11 @@ fn mc_attrs(size: &str) -> std::sync::Arc<Vec<rustybgp_packet::Attribute>> {
 
 fn mc_nexthop(fam: rustybgp_packet::Family, nh: &str) -> Option<rustybgp_packet::bgp::Nexthop> {
     samples::nexthop_for(fam)?;
-    Some(if nh == "v4" { samples::nexthop_v4() } else { samples::nexthop_v6() })
+    Some(match nh {
+        "v4" => samples::nexthop_v4(),
+        "v6ll" => samples::nexthop_v6ll(),
+        _ => samples::nexthop_v6(),
+    })
 }
 
 fn mc_attr_key(a: &rustybgp_packet::Attribute) -> (u8, Vec<u8>) {
